@@ -329,6 +329,8 @@ def c10(o):
     """Programs whose references all resolve never end in an internal assertion, attribute/key error or unbounded recursion;
     "not supported" only when a form that does not exist is referred to."""
     t = o.get('raised_type') or ('RecursionError' if o.get('raised') == 'RecursionError' else None)
+    if o.get('nonterminating'):
+        return 'the solve does not terminate (a reference is retried for ever)'
     if t is None:
         return None
     prog = o['program']
@@ -339,6 +341,8 @@ def c10(o):
                 kf, kb = qual(f, key).split('.')
                 if kf not in prog or (kind == 'v' and kb not in prog[kf]['lines']) or (kind != 'v' and kb not in prog[kf]['inputs']):
                     unknown = True
+    if t == 'RecursionError' and unknown:
+        return 'a reference that does not resolve sends the solver into unbounded recursion instead of a report naming it'
     if t in ('AssertionError', 'RecursionError', 'AttributeError', 'KeyError', 'TypeError', 'IndexError') and not unknown:
         return f'every reference of the program resolves, yet the solve ends in {o.get("raised")}'
     if t == 'NotImplementedError' and not unknown:
@@ -402,6 +406,22 @@ def fixed_programs():
     P.append({'a': {'inputs': [], 'lines': {'t': [('v', 'c:x.s'), ('v', 'c:y.s')]}, 'required': ['t']},
               'c:x': {'inputs': ['p'], 'lines': {'s': [('v', 'u'), ('in', 'p')], 'u': [('in', 'p')]}, 'required': ['s']},
               'c:y': {'inputs': ['p'], 'lines': {'s': [('v', 'u'), ('in', 'p')], 'u': [('in', 'p')]}, 'required': ['s']}})
+    # the same-named line of two copies of one form class waits on one shared line (itself waiting on an input)
+    P.append({'a': {'inputs': ['g'], 'lines': {'base': [('in', 'g')], 't': [('v', 'c:x.s'), ('v', 'c:y.s')]}, 'required': ['base', 't']},
+              'c:x': {'inputs': ['p'], 'lines': {'s': [('v', 'a.base'), ('in', 'p')]}, 'required': ['s']},
+              'c:y': {'inputs': ['p'], 'lines': {'s': [('v', 'a.base'), ('in', 'p')]}, 'required': ['s']}})
+    # ... and the same with nobody reading the copies' lines (both copies requested by name)
+    P.append({'a': {'inputs': ['g'], 'lines': {'base': [('in', 'g')]}, 'required': ['base']},
+              'c:x': {'inputs': ['p'], 'lines': {'s': [('v', 'a.base'), ('in', 'p')]}, 'required': ['s']},
+              'c:y': {'inputs': ['p'], 'lines': {'s': [('v', 'a.base'), ('in', 'p')]}, 'required': ['s']}})
+    # ... and the copies' lines reading one shared INPUT of another form: they wait together only when that input is typed at a prompt
+    P.append({'a': {'inputs': ['g'], 'lines': {'base': [('in', 'g')]}, 'required': ['base']},
+              'c:x': {'inputs': ['p'], 'lines': {'s': [('in', 'a.g'), ('in', 'p')]}, 'required': ['s']},
+              'c:y': {'inputs': ['p'], 'lines': {'s': [('in', 'a.g'), ('in', 'p')]}, 'required': ['s']}})
+    # reads of inputs that their (known, loadable) form does not declare: the solve must abort with a proper report, not spin
+    P.append({'a': {'inputs': ['x'], 'lines': {'u': [('in', 'b.nope')], 'k': [('in', 'x')]}, 'required': ['u', 'k']},
+              'b': {'inputs': ['y'], 'lines': {'m': [('in', 'y')]}, 'required': ['m']}})
+    P.append({'a': {'inputs': ['x'], 'lines': {'u': [('in', 'x'), ('in', 'nope')]}, 'required': ['u']}})
     # line names that differ only in punctuation / leading zeros (equal under the natural sort key, distinct lines all the same)
     P.append({'a': {'inputs': ['x', 'g'], 'lines': {'l4_a': [('in', 'x')], 'l4a': [('ni_if', 'g'), ('in', 'x')], 'l01': [('in', 'g')], 'l1': [('v', 'l4a'), ('in', 'x')]},
                     'required': ['l4_a', 'l4a', 'l01', 'l1']}})
